@@ -11,7 +11,7 @@
    channel are faults (a Go run-time panic).  [run] interleaves any pool of threads along any
    schedule (a list of thread indices).
 
-   [ver] selects the step list: [Old] is the tree before the four C16 repairs
+   [ver] selects the step list: [Old] is the tree before the five C16 repairs that the model covers
      (1) shutdown closed s.ch after Unlock and without a flag (two shutdowns => double close);
      (2) the eventer loop never noticed its closed channel (spins for ever);
      (3) Wake / queue: a send that loses the race against shutdown's close panicked
@@ -19,9 +19,9 @@
      (4) the final exchange of a closing client ran on the base context unless that was
          already cancelled at the check: a cancel arriving later aborted the Connect and the
          shutdown notice was never sent (now: always on its own 10 s context);
-   [New] is the repaired tree.  What is NOT repaired and stays in [New]: Server.Remove tests
-   IsActive and then sends on delSession without a lock; Server.shutdown closes delSession;
-   the send can therefore hit a closed channel ([SendOnClosed NDelS]). *)
+     (5) Server.Remove tested IsActive and then sent on delSession without a lock, Server.shutdown
+         closes delSession: the send hit a closed channel (now recovered like (3));
+   [New] is the repaired tree: no fault is reachable any more (channels_closed_once). *)
 From XMT Require Import Base.Prelude.
 
 Inductive chan := Nil | Open | Closed.
@@ -249,7 +249,8 @@ Definition exec (m : mode) (p : pc) (w : world) : outcome :=
   | SD1 d r x =>                                                               (* s.s.Remove(s.ID, false): IsActive *)
       Step w (if server_active w then SD2 d r x else SD3 d r x)
   | SD2 d r x =>                                                               (* s.delSession <- hash *)
-      if is_closed (sv_dels w) then Fault (SendOnClosed NDelS) else Step (set_delq (S (delq w)) w) (SD3 d r x)
+      if is_closed (sv_dels w) then (if is_new m then Step w (SD3 d r x) else Fault (SendOnClosed NDelS))
+      else Step (set_delq (S (delq w)) w) (SD3 d r x)
   | SD3 d r x =>                                                               (* s.m.close(); [close(s.ch)]; Unlock *)
       let s := get d w in
       match (match d with Cli => close_fault NMux (mux s) | Srv => None end) with
@@ -289,7 +290,8 @@ Definition exec (m : mode) (p : pc) (w : world) : outcome :=
   | SH3 =>                                                                     (* s.send <- ack *)
       if is_closed (send v) then (if is_new m then Step w SH4 else Fault (SendOnClosed NSend)) else Step w SH4
   | SH4 => Step w (if server_active w then SH5 else SH6)                       (* Remove(id, false): IsActive *)
-  | SH5 => if is_closed (sv_dels w) then Fault (SendOnClosed NDelS) else Step (set_delq (S (delq w)) w) SH6
+  | SH5 => if is_closed (sv_dels w) then (if is_new m then Step w SH6 else Fault (SendOnClosed NDelS))
+           else Step (set_delq (S (delq w)) w) SH6
   | SH6 => Step (put Srv (set_shutwait v) w) SH7
   | SH7 => Step w (if Closing v then PDone else SH8)
   | SH8 => Step (put Srv (unset_channel v) w) SH9
@@ -505,7 +507,7 @@ Definition service_pool : list pc := map pc_of_code service.
 Definition pool0 (calls : list pc) : list pc := service_pool ++ calls.
 
 Definition faulted (r : rstate) : bool := match r with Faulted _ _ => true | Running _ _ => false end.
-(* the one fault the repaired tree can still reach (see the header) *)
+(* the fault of repair (5) *)
 Definition is_remove_race (f : fault) : bool := match f with SendOnClosed NDelS => true | _ => false end.
 
 Fixpoint count_occ_nat (i : nat) (l : list nat) : nat :=
